@@ -3,6 +3,8 @@
 CONSTANTS
   Alphabet = {97, 48, 46, 124, 58, 47, 61, 0, 195}
   MaxShort = 4
+  Alphabet2 = {}
+  MaxShort2 = 0
   RunBytes = {97}
   RunCounts = {1, 149, 150, 151}
   SepBytes = {46, 124, 58, 47}
